@@ -252,7 +252,11 @@ def elabOne (an : Analysis) (cs : List RawCpt) (cls : List (List String)) (brs :
   let ns ← c.nodes.mapM (nodeIdx cls)
   let n (i : Nat) : Nat := ns.getD i 0
   match c.ty with
-  | "R" => do let r ← reqVal c.args.head?; pure [.R (n 0) (n 1) r]
+  | "R" => do
+      let r ← reqVal c.args.head?
+      -- the value guard `Cpt.valOK` of the spec: a zero resistance is rejected (Lcapy's matrix then contains `zoo`)
+      if r.isZero then throw s!"ill-formed:zero-resistance:{c.name}"
+      pure [.R (n 0) (n 1) r]
   | "Y" => do let y ← reqVal c.args.head?; pure [.Y (n 0) (n 1) y]
   | "C" => do
       let v ← reqVal c.args.head?
@@ -447,10 +451,14 @@ def elaborateCore (an : Analysis) (lines : List String) : Except String Elab := 
     else pure acc) {}
   pure { raw := raw, cls := cls, brs := brs, cpts := cpts, extra := extra }
 
+/-- acceptance test for the value guard of the spec (`Cpt.valOK`): no resistor of zero resistance -/
+def valOkB (cpts : List (String × Cpt GQ)) : Bool :=
+  cpts.all (fun p => match p.2 with | .R _ _ r => !r.isZero | _ => true)
+
 def elaborate (an : Analysis) (lines : List String) : Except String Elab :=
   match elaborateCore an lines with
   | .error m => .error m
-  | .ok e => if allocOk e.raw e.brs e.cpts then .ok e else .error "ill-formed:branch-names"
+  | .ok e => if allocOk e.raw e.brs e.cpts && valOkB e.cpts then .ok e else .error "ill-formed:branch-names"
 
 /-! ### an untrusted Gauss–Jordan solver (its output is always checked with `residual`) -/
 
